@@ -356,6 +356,9 @@ fn run_init(
         ..Default::default()
     };
 
+    // Reject unsupported settings before anything is written
+    config.validate()?;
+
     // Determine file format and save
     if is_tauri_config {
         // For tauri.conf.json, require it to exist
